@@ -103,6 +103,10 @@ def split_q(model, q, qd):
   return out
 
 
+def group_case(case):
+  return [phys.rollout(leg) for leg in case['legs']]
+
+
 def run(ctx):
   q = ctx.quick
   r = core.rng(ctx, 5)
@@ -118,12 +122,16 @@ def run(ctx):
   models = [c['model'] for c in c01.relational_cases(ctx, 'c05-models', 3 if q else 4, 4 if q else 250, cls='freeroot', seed_off=51)]
   cases, meta = [], []
   states = [phys.float_state(m, r, qscale=1.0, qdscale=1.0) for m in models]
+  from harness.drivers import c04
+  actsets = [c04.random_acts(m, r) for m in models]
+  ctrls = [[r.uniform(-2, 2) for _ in a] for a in actsets]
   nsteps = r.randint(1, 5)          # one horizon per run so that merged partners share it
   for mi, m in enumerate(models):
     qv, qdv = states[mi]
     grav = np.array([0.0, 0.0, -9.81])
-    base = {'q': qv, 'qd': qdv, 'steps': nsteps, 'acts': None, 'keep': 'last'}
-    xml0 = render.render(m, gravity=tuple(grav), custom={'matrix_inv_iterations': 0})
+    acts, ctrl = actsets[mi], ctrls[mi]
+    base = {'q': qv, 'qd': qdv, 'steps': nsteps, 'acts': [ctrl] * nsteps if acts else None, 'keep': 'last'}
+    xml0 = render.render(m, gravity=tuple(grav), actuators=acts, custom={'matrix_inv_iterations': 0})
     # --- rigid motion
     g = np.array([r.gauss(0, 1) for _ in range(4)])
     g /= np.linalg.norm(g)
@@ -140,28 +148,41 @@ def run(ctx):
       else:
         qi += len(l['stack'])
         di += len(l['stack'])
-    xml_g = render.render(m, gravity=tuple(rotv(grav, g)), custom={'matrix_inv_iterations': 0})
+    xml_g = render.render(m, gravity=tuple(rotv(grav, g)), actuators=acts, custom={'matrix_inv_iterations': 0})
     # --- sibling permutation
     m2, order = reorder(m, r)
     parts = split_q(m, qv, qdv)
     qp = sum([parts[o - 1][0] for o in order], [])
     qdp = sum([parts[o - 1][1] for o in order], [])
-    xml_p = render.render(m2, gravity=tuple(grav), custom={'matrix_inv_iterations': 0})
+    new_of = {old: new for new, old in enumerate(order, 1)}
+    acts_p = [dict(a, link=new_of[a['link']]) for a in acts]
+    xml_p = render.render(m2, gravity=tuple(grav), actuators=acts_p, custom={'matrix_inv_iterations': 0})
     # --- merge with the next model
     mb = models[(mi + 1) % len(models)]
     qb, qdb = states[(mi + 1) % len(models)]
     merged = {'links': list(copy.deepcopy(m['links'])) + [dict(copy.deepcopy(l), parent=(l['parent'] + len(m['links']) if l['parent'] else 0))
                                                      for l in mb['links']]}
-    xml_m = render.render(merged, gravity=tuple(grav), custom={'matrix_inv_iterations': 0})
+    mi2 = (mi + 1) % len(models)
+    acts_m = acts + [dict(a, link=a['link'] + len(m['links'])) for a in actsets[mi2]]
+    ctrl_m = ctrl + ctrls[mi2]
+    xml_m = render.render(merged, gravity=tuple(grav), actuators=acts_m, custom={'matrix_inv_iterations': 0})
     for pipe in PIPES:
       gid = len(meta)
-      for role, xml, qq, qqd in (('base', xml0, qv, qdv), ('rigid', xml_g, q2, qd2), ('perm', xml_p, qp, qdp),
+      legs = []
+      for role, xml, qq, qqd in (('base', xml0, qv, qdv), ('perm', xml_p, qp, qdp), ('rigid', xml_g, q2, qd2),
                                  ('merged', xml_m, qv + qb, qdv + qdb)):
-        cases.append({**base, 'xml': xml, 'pipe': pipe, 'q': qq, 'qd': qqd})
-        meta.append({'group': (mi, pipe), 'role': role, 'model': m, 'g': g, 't': t, 'order': order, 'mb': mb})
+        leg = {**base, 'xml': xml, 'pipe': pipe, 'q': qq, 'qd': qqd, 'role': role}
+        if role == 'merged':
+          leg['acts'] = [ctrl_m] * nsteps if acts_m else None
+        legs.append(leg)
+      cases.append({'legs': legs})
+      meta.append({'group': (mi, pipe), 'model': m, 'g': g, 't': t, 'order': order, 'mb': mb})
   outs = {}
-  for (case, out), mt in zip(par.run('harness.phys', 'rollout', cases), meta):
-    outs.setdefault(mt['group'], {})[mt['role']] = (case, out, mt)
+  # all legs of a group run in ONE process, in sequence (base, then the permuted model, ...): hidden state carried
+  # between systems (memoised index tables and the like) would show up as a broken square
+  for (case, outl), mt in zip(par.run('harness.drivers.c05', 'group_case', cases), meta):
+    for leg, out in zip(case['legs'], outl):
+      outs.setdefault(mt['group'], {})[leg['role']] = (leg, out, mt)
   for (mi, pipe), d in outs.items():    # the components alone = the base legs of the two models
     d['a'] = d['base']
     d['b'] = outs[((mi + 1) % len(models), pipe)]['base']
